@@ -480,6 +480,10 @@ func checkNilPreserving(c *Ctx, f *ssa.Function) {
 			if !a.opaque && a.subj == pn && a.konst == "nil" && !a.neg {
 				argNil = true
 			}
+			// a nil-safe generated getter on the argument yields nil for a nil argument: its nil outcome includes that case
+			if !a.opaque && a.konst == "nil" && !a.neg && strings.HasPrefix(a.subj, "call:Get") && strings.HasSuffix(a.subj, "("+pn+")") {
+				argNil = true
+			}
 		}
 		isNilOut := r.results[0] == "const:nil"
 		if argNil {
